@@ -630,6 +630,7 @@ int cmd_replay(const std::string& path, bool verbose)
       return 0;
    }
    std::printf("violation class: %s\n  %s\n", r.verdict.cls.c_str(), r.verdict.detail.c_str());
+   if (verbose and r.crashed) std::printf("---- stderr of the run\n%s\n----\n", err.c_str());
    if (cls.empty() or r.verdict.cls == cls) {
       std::printf("REPRODUCED %s digest=%llu\n", r.verdict.cls.c_str(), (unsigned long long) r.digest);
       return 1;
